@@ -31,6 +31,17 @@ CLAIMS = {
 
  "C04": ("C04_address_chain_exact / C04_address_exact (induction over any chain of nested block accessors: the emitted checked arithmetic, if it does not panic, equals sum(offset + index*stride) in the integers, negative values included), C04_index_guard(+chain), C04_ref_address, C04_read_all_visits, C04_read_all_reports_bus_address_refuted (genuine defect D2, known finding) with the _partial for base 0; tie = accepted random trees compiled with a recording mock: every valid index tuple and the first invalid index per level called in a debug build; bus address vs the Coq model on the real MIR and vs the property's formula from the abstract definition; read_all_registers on every block instance.",
          "Block refs are outside (D9: their output does not compile); index-as-IT wrap and IT overflow are C13's (D3/D3b). " + TB, "5 C04"),
+
+ "C08": ("C08_accept_iff, C08_bytes, C08_no_bit_at_or_above_size, C08_out_of_range_bit_uses_C01_numbering (the rejection rule is stated with C01's setbit), C08_never_panics for EVERY size 1..128 by bit-level reasoning, plus device-level C08_new_constructor, C08_ref_override_own_constructor, C08_ref_without_override_uses_new over the transcribed reset_values_converted and the emitter's constructors; tie = per size x orders x forms x boundary values: real generator vs Coq model on the real MIR vs a transcription of the property text (L1 constructor literals) and compiled drivers' write(|_| ()) wire bytes (L2).",
+         "bitvec's Lsb0/Msb0 views are modelled by their documented numbering. " + TB, "5 C08"),
+ "C12": ("C12_claimed_eq_instances (the pass's expansion = the spec's instance list for every tree incl. block repeats, nesting, refs, block refs), C12_pairwise_complete, C12_reject_iff_collision (full since the repair of D10), C12_kinds_never_collide, C12_error_names_both; tie = near-colliding trees (exhaustive pair family + random) through the real generator vs model and spec on the real MIR: verdict, both names with indices, address.",
+         "Fuel-bounded expansion: a block named like the device loops forever in the real pass (D11b, noted). " + TB, "5 C12"),
+ "C13": ("Five machine-checked refutations (D3, D3b, D4, D4b, D4c: genuine defects, known findings) and C13_untagged_partial: for any accepted tree every instance outside those classes fits its address type and the emitted checked arithmetic returns exactly the mathematical address; C13_walk_is_structural, C13_internal_type_covers, C13_error_states_bound, C13_missing_type_rejected (full); tie = trees near the type bounds over all seven address types vs an exact Z oracle, plus compiled drivers in debug (overflow panics) and release (wrap) for extreme index tuples.",
+         "Partial because the code is wrong (min/max walk ignores block repeats for children, block refs, refs keeping the target's address/repeat). " + TB, "5 C13"),
+ "C14": ("C14_accept_iff (full iff for cfg-free definitions, any depth, over an ASCII model of convert_case 0.6), C14_search_finds_declared, C14_accepted_refs_resolve, C14_lowering_terminates_iff_acyclic, C14_self_ref_refuted (D11), front-end rejection theorems, C14_snake_idempotent, C14_pascal_idempotent_refuted/_partial, C14_device_name_check; tie = (A) thousands of ASCII names through the real front ends vs Case.v, (B) trees with colliding spellings / dangling / wrong-kind refs / layout overrides vs the model on the real MIR (error kind + names; resolved targets; emitted names).",
+         "convert_case modelled for ASCII only; uniqueness over (name, cfg) pairs is stated for cfg-free definitions. " + TB, "5 C14"),
+ "C18": ("C18_gates_are_conjunctions_fixed / C18_fixed_walk_correct (all trees, by tree induction with a stack invariant; the model follows the repaired walk since /repo 7d9ba5c), C18_combine_atoms, C18_no_cfg_unconditional, C18_never_panics, and the historical C18_multi_level_exit_refuted / C18_partial about the pop-once walk (D6, fixed); tie = random trees of depth 0..4 with frequent multi-level exits: every #[cfg] attribute of every emitted item (flattened atom sets and literal all(..) nesting) vs the model and vs the structural spec.",
+         "cfg predicates are treated as opaque atoms. " + TB, "5 C18"),
  "C03": ("Ops half: C03_ops_safe_load/store and C03_store_footprint — in the model every out-of-slice access, usize underflow or over-wide shift is a Fail, and in-bounds calls are proved never to Fail and to change no byte outside the covered bytes; tie = canary-guarded debug build of the real ops vs the model on the exhaustive geometry. Generator half: accepted definitions only emit in-bounds call sites (C03_accepted_accessors_in_bounds) checked against the call sites of real generator output.",
          "Release-build UB is not observable directly; debug_assert!/canaries/Miri (thorough) are the observers. " + TB, "5 C03"),
 }
